@@ -110,6 +110,20 @@ def r_api(spec, api):
     return f"api:{api}", s, lambda x: tuple(x)
 
 
+def r_extend(spec, api):
+    """The model plus one auxiliary variable pinned to 0 (aux <= 0 over [0, 1]), the auxiliary variable being added with
+    Problem.add_variable / add_variables to a problem built by the constructor (views included); the constraint on it uses the
+    index the call returned."""
+    if "decision" in spec or "costs" in spec or spec.get("api"):
+        return None
+    s = copy.deepcopy(spec)
+    s["doms"] = [list(d) for d in spec["doms"]] + [[0, 1]]
+    s["vars"] = [list(v) for v in spec["vars"]] + [[len(spec["doms"]), 0]]
+    s["cons"] = [list(c) for c in spec["cons"]] + [["affine_leq", [len(spec["vars"])], [1, 0]]]
+    s["api"] = api
+    return f"api:{api}", s, lambda x: tuple(x[:-1])
+
+
 def r_permute_constraints(spec, tier):
     k = len(spec["cons"])
     if k < 2:
@@ -197,7 +211,7 @@ def r_translate(spec, t):
 def rewrites(spec, tier):
     out = []
     for r in (r_deshare(spec), r_duplicate(spec), r_redundant(spec), r_translate(spec, -3), r_translate(spec, 5),
-              r_api(spec, "add_variable"), r_api(spec, "add_variables")):
+              r_api(spec, "add_variable"), r_api(spec, "add_variables"), r_extend(spec, "extend"), r_extend(spec, "extends")):
         if r:
             out.append(r)
     out += r_permute_constraints(spec, tier)
@@ -251,7 +265,7 @@ def check_spec(acc, spec, tier):
                               "a meaning-preserving rewrite changed the set of solutions")
                 break
         # optimum (objective variable mapped through the rewrite by optimising the corresponding rewritten variable)
-        if not big and name in ("de-share", "each-constraint-twice", "add-always-true", "api:add_variable", "api:add_variables") or name.startswith("constraints"):
+        if not big and name in ("de-share", "each-constraint-twice", "add-always-true", "api:add_variable", "api:add_variables", "api:extend", "api:extends") or name.startswith("constraints"):
             for (mode, var), val in opt.items():
                 r = S.run(s2, cfgs[0], mode, var)
                 got = None if (r.abort or r.result is None) else back(r.result)[var]
